@@ -355,6 +355,67 @@ def lin_configs(tier):
     return cfg
 
 
+
+def check_layout(rep, repo):
+    """the descriptors carry the fields uring.h documents: LIFO = 16-bit tag | 16-bit index, FIFO = 8-bit tail tag |
+    8-bit tail index | 8-bit head tag | 8-bit head index"""
+    rep.rule('R-desc-layout', 'uring_lifo_from_index / uring_lifo_to_index / uring_fifo_set_tail / uring_fifo_set_head / uring_fifo_get_tail / uring_fifo_get_head '
+             'interpreted on concrete element tags (0, 1, 0x7f, 0x80, 0xff, 0x100, 0x1234, 0xffff) and indexes: the LIFO descriptor is exactly '
+             '(tag << 16) | index with all 16 bits of the element tag - the width that decides after how many re-uses of a slot a stale compare-exchange '
+             'succeeds -, the FIFO descriptor carries the low 8 bits of each tag and both indexes in the documented positions, and the getters invert the setters')
+    prog = _prog(repo)
+    H = prog.hdr
+    for n in ('uring_lifo_from_index', 'uring_lifo_to_index', 'uring_fifo_set_tail', 'uring_fifo_set_head', 'uring_fifo_get_tail', 'uring_fifo_get_head'):
+        if n not in H.funcs or not H.funcs[n].blocks:
+            raise facts.AnalysisBroken('anchor vanished: %s' % n)
+    L = 3
+    for tag in (0, 1, 0x7f, 0x80, 0xff, 0x100, 0x1234, 0xffff):
+        for index in (1, 2, 3):
+            inst = 'tag=%#x,index=%d' % (tag, index)
+            what = None
+            try:
+                sh = Shared(L)
+                for i in range(L):
+                    sh.elems[(i, 'tag')] = 0x5a5a
+                    sh.elems[(i, 'next')] = 0
+                sh.elems[(index - 1, 'tag')] = tag
+                m = RingMachine(prog, H, sh)
+                m.max_steps = 5000
+                r = m.run(H.funcs['uring_lifo_from_index'], [Q, index])
+                if r != ((tag << 16) | index):
+                    what = 'uring_lifo_from_index gives %#x for element tag %#x and index %d, the documented descriptor is %#x' % (
+                        r if isinstance(r, int) else -1, tag, index, (tag << 16) | index)
+                else:
+                    back = m.run(H.funcs['uring_lifo_to_index'], [Q, r])
+                    if back != index:
+                        what = 'uring_lifo_to_index(%#x) gives %r, expected %d' % (r, back, index)
+                if not what:
+                    env = {'f': 0}
+                    m.cells[(id(env), 'f')] = env
+                    pf = ('addr', 'var', 'f', id(env))
+                    m.run(H.funcs['uring_fifo_set_tail'], [Q, pf, index])
+                    other = 1 + index % L
+                    sh.elems[(other - 1, 'tag')] = (tag ^ 0xa5) & 0xffff
+                    m.run(H.funcs['uring_fifo_set_head'], [Q, pf, other])
+                    exp = ((tag & 0xff) << 24) | (index << 16) | ((((tag ^ 0xa5) & 0xffff) & 0xff) << 8) | other
+                    if env['f'] != exp:
+                        what = 'FIFO descriptor built from tail (%d, tag %#x) and head (%d, tag %#x) is %#x, the documented layout gives %#x' % (
+                            index, tag, other, (tag ^ 0xa5) & 0xffff, env['f'] if isinstance(env['f'], int) else -1, exp)
+                    else:
+                        t = m.run(H.funcs['uring_fifo_get_tail'], [Q, exp])
+                        h = m.run(H.funcs['uring_fifo_get_head'], [Q, exp])
+                        if (t, h) != (index, other):
+                            what = 'uring_fifo_get_tail / _head of %#x give (%r, %r), expected (%d, %d)' % (exp, t, h, index, other)
+            except Finding as f:
+                what = str(f)
+            except PathEnd:
+                what = 'an assert() fails'
+            except Undecided as e:
+                rep.add('R-desc-layout', inst, UNDECIDED, 'include/upipe/uring.h', why=str(e))
+                continue
+            rep.add('R-desc-layout', inst, VIOLATED if what else HOLDS, 'include/upipe/uring.h', **({'what': what} if what else {}))
+
+
 def run(tier='quick', repo=None):
     repo = repo or facts.REPO
     rep = Report(PROP, tier)
@@ -381,6 +442,7 @@ def run(tier='quick', repo=None):
              'uring_lifo_push that recycles the element')
     rep.rule('R-lin', 'for every interleaving of the thread programs (scheduling point = access to a descriptor word or a ring element): the history '
              'of results, with a final drain, is linearizable with respect to the FIFO / LIFO / pool specification')
+    check_layout(rep, repo)
     # ---- R-order ---------------------------------------------------------------
     for fname, first, then, what in (
             ('ufifo_push', 'uring_elem_set', 'uring_fifo_push', 'the element is linked into the carrier FIFO before its opaque is stored: a concurrent pop returns a stale or NULL pointer'),
